@@ -546,6 +546,18 @@ class SpecEnv(object):
                     alts.append(z3.And(to_val(SVal(e[1]) if z3.is_expr(e[1]) else e[1]) == to_val(f), e[2] == self.to_sort(args, "vl")))
             return b2v(z3.Or(alts)) if alts else False
         P["called_and_returned"] = p_called_and_returned
+
+        def p_called_and_returned_attr(ctx, obj, name):
+            """the trace holds a read of attribute `name` of exactly this object whose result was then called, and the call returned"""
+            tr = ctx.st.trace
+            alts = []
+            for i, e in enumerate(tr):
+                if e[0] == "GetAttr" and not isinstance(e[3], str):
+                    for c in tr[i + 1:]:
+                        if c[0] == "Call" and z3.is_expr(c[1]) and z3.eq(c[1], e[3]) and not (isinstance(c[3], str) and c[3] == "raise"):
+                            alts.append(z3.And(e[1] == to_val(obj), e[2] == to_val(name)))
+            return b2v(z3.Or(alts)) if alts else False
+        P["called_and_returned_attr"] = p_called_and_returned_attr
         P["ev_arg"] = lambda ctx, kind, i, k: [e for e in ctx.st.trace if e[0] == kind][i][k]
         P["typeobj"] = lambda ctx, v: SVal(Val.VRef(-1 - typeof(to_val(v))))
 
